@@ -199,6 +199,15 @@ func genC14(t *rapid.T) c14Case {
 			c.Queries = append(c.Queries, Q{URL: "http://ads.example/x.js", Src: "http://page.example/" + pick(t, "page", []string{"checkout", "other", "cart", "checkout", "other"}), Typ: "script"})
 		}
 	}
+	for _, l := range lists {
+		if strings.Contains(l.Text, "/banner_ad") && strings.Contains(l.Text, "adsgp") && chance(t, "opposite-order-pairs", 3) {
+			// two rules of equal priority that both match two URLs, which present them in opposite orders
+			for i := rapid.IntRange(40, 120).Draw(t, "nopposite"); i > 0; i-- {
+				c.Queries = append(c.Queries, Q{URL: pick(t, "opp", []string{"http://x.com/adsgp/banner_ad", "http://x.com/banner_ad/adsgp"}), Typ: "script"})
+			}
+			break
+		}
+	}
 	hasClients := false
 	for _, l := range lists {
 		if strings.Contains(l.Text, "||clients.example^$client=") {
@@ -232,7 +241,7 @@ func genC14(t *rapid.T) c14Case {
 			} else {
 				// URLs in which a rule's window occurs several times
 				q.URL = pick(t, "fu", append([]string{"http://x.com/adsa6/adsgp", "http://x.com/adsa6/banner_ad", "http://x.com/adsa6?adsgp=/banner_ad",
-					"http://x.com/bannerx1", "http://x.com/adsgpq2", "http://x.com/trackerzz", "http://x.com/pixelwab", "http://x.com/counterv77"}, c01FixedURLs...))
+					"http://x.com/adsgp/banner_ad", "http://x.com/banner_ad/adsgp", "http://x.com/bannerx1", "http://x.com/adsgpq2", "http://x.com/trackerzz", "http://x.com/pixelwab", "http://x.com/counterv77"}, c01FixedURLs...))
 			}
 		}
 		c.Queries = append(c.Queries, q)
